@@ -48,6 +48,7 @@ OrcProgram *build_program(const std::string &spec, const std::string &name, Prog
 void corpus_load();              // reads testsuite/test.orc of the working tree (supervisor, before fork)
 int corpus_size();
 const std::string &corpus_name(int k);
+const std::string &corpus_text(int k);   // source text of the k-th function
 
 void fill_meta(OrcProgram *p, ProgMeta *meta);
 std::string describe_program(OrcProgram *p);
